@@ -4,6 +4,7 @@ CONSTANTS
   Ids <- IdsQ
   Lens <- LensQ
   Depth = 2
+  BigTN <- BigT
   MaxN = 3
   Deviations <- NoDev
   Emit = FALSE
